@@ -3,6 +3,7 @@ package main
 import (
 	"fmt"
 	"go/ast"
+	"os"
 	"go/constant"
 	"go/token"
 	"go/types"
@@ -263,7 +264,60 @@ func usableFacts(env *linEnv, ins ssa.Instruction, pathKeyed bool) []Fact {
 func axiomsFor(c *Ctx, env *linEnv, fn *ssa.Function, at ssa.Instruction) (facts []Fact, assumed map[string]bool) {
 	assumed = map[string]bool{}
 	bp := bufParam(fn)
+	// same invariant for PFields reached through a local pointer: loads of base.Offs and base.Len with equal base
+	if bp != nil {
+		for k1, v1 := range env.vals {
+			u1, ok := v1.(*ssa.UnOp)
+			if !ok || u1.Op != token.MUL || typeShort(u1.Type()) != "OffsT" {
+				continue
+			}
+			f1, ok := u1.X.(*ssa.FieldAddr)
+			if !ok || derefStruct(f1.X.Type()).Field(f1.Field).Name() != "Offs" || addrPath(u1.X) != "" {
+				continue
+			}
+			for k2, v2 := range env.vals {
+				u2, ok := v2.(*ssa.UnOp)
+				if !ok || u2.Op != token.MUL {
+					continue
+				}
+				f2, ok := u2.X.(*ssa.FieldAddr)
+				if !ok || derefStruct(f2.X.Type()).Field(f2.Field).Name() != "Len" || !sameAddr(f1.X, f2.X) {
+					continue
+				}
+				src := "PField end invariant Offs+Len <= len(buf) (P2)"
+				facts = append(facts, Fact{Lin{T: map[string]int64{k1: 1, k2: 1, "len(param:" + bp.Name() + ")": -1}}, src})
+				assumed[src] = true
+			}
+		}
+	}
+	// PField end invariant: X.Offs + X.Len <= len(buf) for a field whose Offs and Len are both loaded
+	if bp != nil {
+		for k, v := range env.vals {
+			u, ok := v.(*ssa.UnOp)
+			if !ok {
+				continue
+			}
+			p := addrPath(u.X)
+			if !strings.HasSuffix(p, ".Offs") || typeShort(u.Type()) != "OffsT" {
+				continue
+			}
+			lk := "load:" + strings.TrimSuffix(p, ".Offs") + ".Len"
+			if _, has := env.vals[lk]; has {
+				src := "PField end invariant " + strings.TrimSuffix(p, ".Offs") + ".Offs+Len <= len(buf) (P2)"
+				facts = append(facts, Fact{Lin{T: map[string]int64{k: 1, lk: 1, "len(param:" + bp.Name() + ")": -1}}, src})
+				assumed[src] = true
+			}
+		}
+	}
 	for k, v := range env.vals {
+		// small constant ranges of callee results (e.g. the line-end length 0..2)
+		if ex, ok := v.(*ssa.Extract); ok && isIntType(ex.Type()) {
+			re := newRangeEnv(fn)
+			lo, hi := re.rng(ex, nil)
+			if lo.IsInt64() && hi.IsInt64() && hi.Int64()-lo.Int64() <= 16 {
+				facts = append(facts, Fact{Lin{T: map[string]int64{k: 1}, C: -hi.Int64()}, "callee result range"}, Fact{Lin{T: map[string]int64{k: -1}, C: lo.Int64()}, "callee result range"})
+			}
+		}
 		switch x := v.(type) {
 		case *ssa.UnOp:
 			// saved scan index <= len(buf)   (P2 provenance: only ever stored a past index)
@@ -378,7 +432,7 @@ func proveH(c *Ctx, fn *ssa.Function, ins ssa.Instruction, goal func(env *linEnv
 			}
 		}
 	}
-	if depth < 3 {
+	if depth < 5 {
 		if r := proveByCases(c, fn, ins, goal, hyps, depth); r.ok {
 			return r
 		}
@@ -419,16 +473,24 @@ func proveByCases(c *Ctx, fn *ssa.Function, ins ssa.Instruction, goal func(env *
 			}
 			pred := phi.Block().Preds[i]
 			last := pred.Instrs[len(pred.Instrs)-1]
-			ev := e
+			edgeIdx := i
 			sub := func(env2 *linEnv) Lin {
 				g2 := goal(env2)
-				k2 := env2.atomKey(phi)
-				cf := g2.T[k2]
-				delete(g2.T, k2)
-				return g2.add(env2.norm(ev).scale(cf), 1)
+				// simultaneous substitution of every phi of this block by its value on this edge
+				for k2, cf := range g2.T {
+					if ph2, ok := env2.vals[k2].(*ssa.Phi); ok && ph2.Block() == phi.Block() {
+						delete(g2.T, k2)
+						g2 = g2.add(env2.norm(ph2.Edges[edgeIdx]).scale(cf), 1)
+					}
+				}
+				return g2
 			}
+			_ = e
 			r := proveH(c, fn, last, sub, nh, depth+1)
 			if !r.ok {
+				if os.Getenv("SA_DEBUG") != "" {
+					fmt.Fprintf(os.Stderr, "DEBUG depth=%d cases on %s: edge %d (%s) from block %d fails: %s\n", depth, srcName(phi), i, srcName(e), pred.Index, r.how)
+				}
 				allOK = false
 				break
 			}
@@ -722,13 +784,20 @@ func callerEstablished(c *Ctx, s idxSite) (string, bool, string) {
 	return fmt.Sprintf("G3c len(%s) >= %d established at each of the %d call sites of unexported %s", p.Name(), k+1, n, s.fn.Name()), true, assumed
 }
 
-func ruleG(c *Ctx) {
+func ruleG(c *Ctx) { ruleGFor(c, "G", nil) }
+
+// ruleGFor runs the index-guard rule under another rule id, restricted to the named functions.
+func ruleGFor(c *Ctx, rule string, only map[string]bool) {
 	curEffects = computeEffects(c.Prog)
+	if len(offsetPost) == 0 {
+		t := &Ctx{Prog: c.Prog, Prop: c.Prop}
+		ruleO1(t)
+	}
 	sites := collectIdxSites(c.Prog)
 	cnt := map[string]int{}
 	for _, s := range sites {
 		fk := ssaKey(s.fn)
-		if isInitFn(s.fn) {
+		if isInitFn(s.fn) || (only != nil && !only[fk]) {
 			continue
 		}
 		base := fk + ":" + operandName(s.x)
@@ -753,17 +822,17 @@ func ruleG(c *Ctx) {
 		}
 		pos := s.ins.Pos()
 		if isTrustedAccessor(s.fn) {
-			c.excepted("G", key, pos, "trusted accessor: buf[f.Offs:f.Offs+f.Len] is safe iff the field is contained in the buffer (C05 containment, a value property)")
+			c.excepted(rule, key, pos, "trusted accessor: buf[f.Offs:f.Offs+f.Len] is safe iff the field is contained in the buffer (C05 containment, a value property)")
 			continue
 		}
 		if why, ok := idxExceptions[key]; ok {
 			if chk := idxExceptionChecks[key]; chk != nil {
 				if msg, good := chk(c); !good {
-					c.fail("G", key, pos, "named exception no longer justified: "+msg)
+					c.fail(rule, key, pos, "named exception no longer justified: "+msg)
 					continue
 				}
 			}
-			c.excepted("G", key, pos, why)
+			c.excepted(rule, key, pos, why)
 			continue
 		}
 		var msgs, assumedBy []string
@@ -822,14 +891,18 @@ func ruleG(c *Ctx) {
 			}
 		}
 		if ok && len(assumedBy) > 0 {
-			c.assumed("G", key, pos, strings.Join(msgs, "; ")+" — relies on: "+strings.Join(assumedBy, ", "))
+			c.assumed(rule, key, pos, strings.Join(msgs, "; ")+" — relies on: "+strings.Join(assumedBy, ", "))
 		} else if ok {
-			c.ok("G", key, pos, strings.Join(msgs, "; "))
+			c.ok(rule, key, pos, strings.Join(msgs, "; "))
 		} else {
-			c.fail("G", key, pos, "no proof rule discharges this "+s.kind+": "+strings.Join(msgs, "; "))
+			c.fail(rule, key, pos, "no proof rule discharges this "+s.kind+": "+strings.Join(msgs, "; "))
 		}
 	}
-	c.expectMin("G", 100)
+	if only == nil {
+		c.expectMin(rule, 100)
+	} else {
+		c.expectMin(rule, 3)
+	}
 }
 
 var _ = token.NoPos
@@ -936,6 +1009,9 @@ func ruleO1(c *Ctx) {
 				r := prove(c, f, ret, func(env *linEnv) Lin {
 					return env.norm(v).add(Lin{T: map[string]int64{"len(param:" + bp.Name() + ")": 1}}, -1).add(linConst(1), 1)
 				})
+				if os.Getenv("SA_DEBUG") != "" {
+					fmt.Fprintf(os.Stderr, "DEBUG strict %s ret %s: ok=%v assumed=%q how=%s\n", fk, c.pos(ret.Pos()), r.ok, r.assumed, r.how)
+				}
 				if !r.ok || r.assumed != "" {
 					strict = false
 				}
@@ -1043,4 +1119,269 @@ func isOffsetPlusCrl(v ssa.Value) bool {
 		return chk(x)
 	}
 	return isCrl(b.Y) || isCrl(b.X)
+}
+
+// anyBufParam: first parameter whose underlying type is []byte (also matches the named SIPStr).
+func anyBufParam(f *ssa.Function) *ssa.Parameter {
+	for _, p := range f.Params {
+		if sl, ok := p.Type().Underlying().(*types.Slice); ok {
+			if b, ok := sl.Elem().Underlying().(*types.Basic); ok && b.Kind() == types.Uint8 {
+				return p
+			}
+		}
+	}
+	return nil
+}
+
+// ruleP2: argument discipline of PField.Set/Extend and of the saved-index state fields.
+//   - every end argument is provably <= len(buf)
+//   - start <= end is proved, or (start is a saved past index) assumed by monotonicity
+//   - every store to a saved-index field stores 0 or a value provably <= len(buf)  (this is the
+//     inductive invariant the saved-index axiom of rules G/O1 relies on)
+func ruleP2(c *Ctx) {
+	curEffects = computeEffects(c.Prog)
+	if len(offsetPost) == 0 {
+		t := &Ctx{Prog: c.Prog, Prop: c.Prop}
+		ruleO1(t)
+	}
+	var keys []string
+	for k := range c.SFuncs {
+		keys = append(keys, k)
+	}
+	sort.Strings(keys)
+	nset, nst := 0, 0
+	for _, k := range keys {
+		fn := c.SFuncs[k]
+		if isInitFn(fn) || k == "PField.Set" || k == "PField.Extend" || k == "PField.Reset" {
+			continue
+		}
+		bp := anyBufParam(fn)
+		cnt := map[string]int{}
+		for _, b := range fn.Blocks {
+			for _, ins := range b.Instrs {
+				switch x := ins.(type) {
+				case *ssa.Call:
+					cal := x.Call.StaticCallee()
+					if cal == nil || (ssaKey(cal) != "PField.Set" && ssaKey(cal) != "PField.Extend") {
+						continue
+					}
+					nset++
+					le := newLinEnv(linOpts{pathLoads: true})
+					field := addrPath(x.Call.Args[0])
+					args := x.Call.Args[1:]
+					base := k + ":" + field + "." + cal.Name() + "("
+					for i, a := range args {
+						if i > 0 {
+							base += ","
+						}
+						base += le.pretty(le.norm(a))
+					}
+					base += ")"
+					cnt[base]++
+					key := base
+					if cnt[base] > 1 {
+						key += "#" + itoa(cnt[base])
+					}
+					if bp == nil {
+						c.assumed("P2", key, x.Pos(), "derived view over already-parsed components (no buffer in scope): start <= end relies on the component order of C14")
+						continue
+					}
+					end := args[len(args)-1]
+					lenBuf := func(env *linEnv) Lin { return env.lenLin(bp) }
+					r := prove(c, fn, x, func(env *linEnv) Lin { return env.norm(end).add(lenBuf(env), -1) })
+					var msgs, as []string
+					ok := r.ok
+					msgs = append(msgs, "end<=len(buf): "+r.how)
+					if r.assumed != "" {
+						as = append(as, r.assumed)
+					}
+					if cal.Name() == "Set" {
+						start := args[0]
+						r2 := prove(c, fn, x, func(env *linEnv) Lin { return env.norm(start).add(env.norm(end), -1) })
+						if !r2.ok {
+							// start is a saved past index (state field, local carrying it, or the field's own Offs)
+							if isSavedIndexValue(start) {
+								r2 = proofResult{how: "start is a saved past index", ok: true, assumed: "a saved index never exceeds the current scan position (monotone index, P2-i)"}
+							}
+						}
+						ok = ok && r2.ok
+						msgs = append(msgs, "start<=end: "+r2.how)
+						if r2.assumed != "" {
+							as = append(as, r2.assumed)
+						}
+					} else {
+						as = append(as, "Extend: the field's own Offs is a saved past index <= newEnd (monotone index, P2-i)")
+					}
+					switch {
+					case !ok:
+						c.fail("P2", key, x.Pos(), "PField."+cal.Name()+" argument discipline not established: "+strings.Join(msgs, "; "))
+					case len(as) > 0:
+						c.assumed("P2", key, x.Pos(), strings.Join(msgs, "; ")+" — relies on: "+strings.Join(as, ", "))
+					default:
+						c.ok("P2", key, x.Pos(), strings.Join(msgs, "; "))
+					}
+				case *ssa.Store:
+					fa, ok := x.Addr.(*ssa.FieldAddr)
+					if !ok {
+						continue
+					}
+					st := derefStruct(fa.X.Type())
+					fname := st.Field(fa.Field).Name()
+					isOffs := fname == "Offs" && typeShort(st.Field(fa.Field).Type()) == "OffsT"
+					if !savedIndexFields[fname] && !isOffs {
+						continue
+					}
+					if fname == "offs" && typeShort(derefNamed(fa.X.Type())) != "SIPMsgIState" {
+						continue
+					}
+					if bp == nil || k == "PsipURI.AdjustOffs" {
+						continue // URI-relative positions (relocation is C18)
+					}
+					nst++
+					le := newLinEnv(linOpts{pathLoads: true})
+					base := k + ":" + addrPath(fa) + "=" + le.pretty(le.norm(stripNarrow(x.Val)))
+					cnt[base]++
+					key := base
+					if cnt[base] > 1 {
+						key += "#" + itoa(cnt[base])
+					}
+					val := stripNarrow(x.Val)
+					if kk, isC := constIntOf(val); isC && kk == 0 {
+						c.ok("P2", key, x.Pos(), "reset to 0")
+						continue
+					}
+					r := prove(c, fn, x, func(env *linEnv) Lin { return env.norm(val).add(env.lenLin(bp), -1) })
+					switch {
+					case !r.ok:
+						c.fail("P2", key, x.Pos(), "a saved-index field is stored a value not provably <= len(buf): "+r.how)
+					case r.assumed != "":
+						c.assumed("P2", key, x.Pos(), r.how+" — relies on: "+r.assumed)
+					default:
+						c.ok("P2", key, x.Pos(), r.how)
+					}
+				}
+			}
+		}
+	}
+	c.check(nset >= 100, "P2", "set-count", token.NoPos, fmt.Sprintf("%d PField.Set/Extend call sites analysed (frozen minimum 100)", nset))
+	c.check(nst >= 25, "P2", "store-count", token.NoPos, fmt.Sprintf("%d stores to saved-index fields analysed (frozen minimum 25)", nst))
+}
+
+func derefNamed(t types.Type) types.Type {
+	if p, ok := t.Underlying().(*types.Pointer); ok {
+		return p.Elem()
+	}
+	return t
+}
+
+// stripNarrow: see through OffsT(x) style conversions (documented 16-bit limit).
+func stripNarrow(v ssa.Value) ssa.Value {
+	for {
+		c, ok := v.(*ssa.Convert)
+		if !ok {
+			return v
+		}
+		v = c.X
+	}
+}
+
+// isSavedIndexValue: a load of a saved-index field / PField.Offs, or a local (phi) fed only by such loads,
+// positions and constants 0.
+func isSavedIndexValue(v ssa.Value) bool {
+	seen := map[ssa.Value]bool{}
+	var chk func(v ssa.Value) bool
+	chk = func(v ssa.Value) bool {
+		if seen[v] {
+			return true
+		}
+		seen[v] = true
+		v = stripNarrow(v)
+		switch a := v.(type) {
+		case *ssa.UnOp:
+			if p := addrPath(a.X); p != "" {
+				f := p[strings.LastIndex(p, ".")+1:]
+				return savedIndexFields[f] || f == "Offs"
+			}
+		case *ssa.Phi:
+			for _, e := range a.Edges {
+				if !chk(e) {
+					return false
+				}
+			}
+			return true
+		case *ssa.Const:
+			k, ok := constIntOf(a)
+			return ok && k == 0
+		case *ssa.BinOp:
+			// i+1 (skip one delimiter) / plain positions
+			if a.Op == token.ADD {
+				if k, ok := constIntOf(a.Y); ok && k >= 0 && k <= 1 {
+					return chk(a.X) || isPositionLocal(a.X)
+				}
+			}
+		}
+		return isPositionLocal(v)
+	}
+	return chk(v)
+}
+
+// isPositionLocal: a scan position by structure: the int parameter following the buffer, a loop index
+// (phi with an increment edge), the offset result of an offset-returning callee, or a phi of such values.
+func isPositionLocal(v ssa.Value) bool {
+	seen := map[ssa.Value]bool{}
+	var chk func(v ssa.Value, top bool) bool
+	chk = func(v ssa.Value, top bool) bool {
+		if seen[v] {
+			return true
+		}
+		seen[v] = true
+		switch a := v.(type) {
+		case *ssa.Parameter:
+			f := a.Parent()
+			bp := anyBufParam(f)
+			for i, p := range f.Params {
+				if p == bp && i+1 < len(f.Params) && f.Params[i+1] == a {
+					return true
+				}
+			}
+		case *ssa.Extract:
+			if call, ok := a.Tuple.(*ssa.Call); ok && a.Index == 0 {
+				if cal := call.Call.StaticCallee(); cal != nil && offsetPost[ssaKey(cal)] {
+					return true
+				}
+			}
+		case *ssa.Call:
+			if cal := a.Call.StaticCallee(); cal != nil && offsetPost[ssaKey(cal)] {
+				return true
+			}
+		case *ssa.BinOp:
+			if a.Op == token.ADD {
+				if k, ok := constIntOf(a.Y); ok && k >= 0 && k <= 2 {
+					return chk(a.X, false)
+				}
+			}
+		case *ssa.Const:
+			k, ok := constIntOf(a)
+			return ok && k == 0 && !top
+		case *ssa.Phi:
+			for _, e := range a.Edges {
+				if !chk(e, false) {
+					return false
+				}
+			}
+			return true
+		}
+		return false
+	}
+	return chk(v, true)
+}
+
+// sameAddr: structurally equal addresses (same SSA value, or the same field of equal bases).
+func sameAddr(a, b ssa.Value) bool {
+	if a == b {
+		return true
+	}
+	fa, ok1 := a.(*ssa.FieldAddr)
+	fb, ok2 := b.(*ssa.FieldAddr)
+	return ok1 && ok2 && fa.Field == fb.Field && sameAddr(fa.X, fb.X)
 }
